@@ -5,6 +5,7 @@ import (
 	"sync"
 	"time"
 
+	"github.com/IrineSistiana/mosproxy/internal/verifhook"
 	"github.com/puzpuzpuz/xsync/v3"
 	"golang.org/x/time/rate"
 )
@@ -68,6 +69,9 @@ func (cl *ClientLimiter) AllowN(addr netip.Addr, now time.Time, n int) bool {
 	e.m.Lock()
 	e.lastSeen = now
 	ok := e.l.AllowN(now, n)
+	if verifhook.On {
+		verifhook.Ev("lim.cl", cl, addr, cl.mask(addr), now, n, ok)
+	}
 	e.m.Unlock()
 	return ok
 }
